@@ -36,6 +36,9 @@ impl<'a, 'tcx> H<'a, 'tcx> {
                     ("kind", J::s(format!("{:?}", kind))),
                     ("def", J::s(dps(tcx, did))),
                 ];
+                if matches!(kind, hir::def::DefKind::Static { .. }) {
+                    o.push(("uid", J::s(crate::uid(tcx, did))));
+                }
                 // a variant constructor: also name the variant and enum
                 if let hir::def::DefKind::Ctor(of, _) = kind {
                     let parent = tcx.parent(did);
@@ -163,6 +166,7 @@ impl<'a, 'tcx> H<'a, 'tcx> {
                     stmts.push(J::Obj(vec![
                         ("k", J::s("item")),
                         ("def", J::s(dps(tcx, did))),
+                        ("uid", J::s(crate::uid(tcx, did))),
                         ("kind", J::s(format!("{:?}", tcx.def_kind(did)))),
                     ]));
                 },
